@@ -189,6 +189,13 @@ def generate(seed, i, tier="quick"):
         if r.random() < 0.35:
             ops.insert(len(ops) - r.randint(0, min(n, 6)), {"k": "save"})
         ops.append({"k": "save_load"})
+    # swarm: half of the runs concentrate their slot edits on one module (position 1-3), so that
+    # joint states of one module's type-specific payload are reached, not only single edits
+    if r.random() < 0.5:
+        fm = r.randint(1, 3)
+        for op in ops:
+            if op["k"] == "set" and r.random() < 0.6:
+                op["m"] = fm
     return {"property": PROPERTY, "world": "store", "layout": 2, "ops": ops}
 
 
